@@ -176,6 +176,8 @@ pub struct WorldB {
     pub nonce_table: HashMap<(usize, u8, u32, u64), u64>, // (tid, dir, scope, seq) -> hash of datagram
     pub adv_addr: SocketAddr,
     pub flooded: bool,
+    /// the next token lists only one of the server's public addresses (a backend that hands out the address it prefers)
+    pub next_token_subset: bool,
     pub payload_counter: u64,
     pub ev_connected: BTreeMap<u64, (SocketAddr, bool)>, // id -> (addr, currently connected per event stream)
     pub challenges_seen: Vec<(u64, Vec<u8>, u64, u32)>, // (token_sequence, token_data, for client id, incarnation)
@@ -280,6 +282,7 @@ impl WorldB {
             nonce_table: HashMap::new(),
             adv_addr: addr_v4(66, 66, 66, 66, 6666),
             flooded: false,
+            next_token_subset: false,
             payload_counter: 0,
             ev_connected: BTreeMap::new(),
             challenges_seen: Vec::new(),
@@ -341,9 +344,13 @@ impl WorldB {
         if variant == 3 {
             addrs.push(addr_v4(10, 7, 7, 7, 5000));
         } else {
-            // the live public addresses, in order, then padding with further foreign hosts up to naddr
-            for a in &self.public {
-                addrs.push(*a);
+            // the live public addresses, in order (or just one of them), then padding with further foreign hosts up to naddr
+            if self.next_token_subset && self.public.len() > 1 {
+                addrs.push(self.public[tag as usize % self.public.len()]);
+            } else {
+                for a in &self.public {
+                    addrs.push(*a);
+                }
             }
         }
         let mut k = 0;
